@@ -171,6 +171,10 @@ def _check(case, newp):
             cd = analysis.compute_degree(e)
             alin = analysis.is_linear(e)
             aquad = analysis.is_quadratic(e)
+            # the early-terminating traversal (a private helper of analysis.py, currently without callers)
+            bounded = getattr(analysis, "_check_degree_bounded", None)
+            b1 = bounded(e, 1) if bounded else False
+            b2 = bounded(e, 2) if bounded else False
         except Exception as ex:
             return Result.violation(f"degree-raises:{exc_label(ex)}", f"{show(recipe)}: {ex!r}", classes)
     if d1 != d2:
@@ -187,6 +191,10 @@ def _check(case, newp):
         claims.append(("analysis.is_linear", 1))
     if aquad:
         claims.append(("analysis.is_quadratic", 2))
+    if b1:
+        claims.append(("analysis._check_degree_bounded(e, 1)", 1))
+    if b2:
+        claims.append(("analysis._check_degree_bounded(e, 2)", 2))
     # the true degree, when the recipe is in the polynomial fragment
     true_deg = None
     try:
